@@ -359,13 +359,17 @@ func (w *world) observe(key string, run func() error) *syncResult {
 	if hung != "" {
 		// the sync waits for goroutines that no longer exist: it will never return
 		prop := w.prop
+		if id := w.reportID(); prop == "" && len(id) >= 3 && id[0] == 'c' && id[1] >= '0' && id[1] <= '2' && id[2] >= '0' && id[2] <= '9' {
+			prop = "C" + id[1:3] // the property of the test case that lost its worker
+		}
 		if prop == "" {
 			prop = "C01"
 		}
 		res.Err = fmt.Errorf("sync never returned")
 		w.watchdog = fmt.Errorf("a sync is blocked for good; the scenario cannot continue")
 		w.hung = true
-		sim.R().Violation(prop, w.reportID(), "sync-blocked-forever:WaitGroup.Wait", "the sync is parked in sync.WaitGroup.Wait while no request, no hook call and no goroutine that could call Done exists any more (two goroutine dumps 2 s apart); the worker is lost for good:\n"+hung,
+		kind := strings.SplitN(hung, "\n", 2)[0]
+		sim.R().Violation(prop, w.reportID(), "sync-blocked-forever:"+kind, "the sync is parked on "+kind+" while nothing is in flight and no goroutine exists that could wake it (two goroutine dumps 2 s apart); the worker is lost for good:\n"+hung,
 			map[string]interface{}{"key": key})
 		res.Requests = w.sim.Since(mark)
 		res.Hooks = w.hooks.Since(hmark)
@@ -388,6 +392,12 @@ func (w *world) observe(key string, run func() error) *syncResult {
 	res.QueueOps = w.q.Since(qmark)
 	atomic.AddInt64(&w.syncs, 1)
 	if !w.noMonitors {
+		// a sync that has returned has no hook call of its own still in flight (the parallel
+		// per-revision calls are all waited for): whoever stops the controller next relies on it
+		if n := w.hooks.InFlight(); n != 0 {
+			sim.R().Violation("C20", w.reportID(), "hook-call-outlives-its-sync", fmt.Sprintf("the sync returned while %d hook call(s) it had started were still in flight; a Stop() that waits for the workers would return with calls of the stopped instance outstanding", n),
+				map[string]interface{}{"key": key, "hooks": describeHooks(res.Hooks)})
+		}
 		after := w.env.SnapshotCaches()
 		atomic.AddInt64(&w.cacheObjs, int64(len(before)))
 		for _, d := range env.CompareCaches(before, after) {
@@ -436,15 +446,41 @@ func (w *world) runGuarded(fn func()) (stack string, panicked bool, hung string)
 		buf := make([]byte, 8<<20)
 		buf = buf[:runtime.Stack(buf, true)]
 		var waiter string
+		perRevision := false
+		// second dead end: parked on the process-wide lock of the server-side-apply memo
+		// (common.cacheLock, locked and unlocked only inside updateChildren / deleteChildren) while every
+		// goroutine that is inside those functions is itself parked on that lock: nobody holds it in a
+		// place that could release it
+		inMemoFuncs, parkedOnMemoLock := 0, 0
+		var memoWaiter string
 		for _, g := range strings.Split(string(buf), "\n\n") {
 			if strings.Contains(g, "syncRevisions.func") || strings.Contains(g, "syncRevisions.gowrap") {
-				return "" // a per-revision goroutine is still alive
+				perRevision = true // a per-revision goroutine is still alive
 			}
 			if strings.Contains(g, "sync.(*WaitGroup).Wait") && strings.Contains(g, "(*parentController).syncRevisions") && strings.Contains(g, "runGuarded") {
 				waiter = g
 			}
+			if strings.Contains(g, "controller/common.updateChildren(") || strings.Contains(g, "controller/common.deleteChildren(") {
+				inMemoFuncs++
+				head := g
+				if len(head) > 600 {
+					head = head[:600]
+				}
+				if strings.Contains(head, "sync.(*RWMutex).Lock") || strings.Contains(head, "sync.(*RWMutex).RLock") {
+					parkedOnMemoLock++
+					if strings.Contains(g, "runGuarded") {
+						memoWaiter = g
+					}
+				}
+			}
 		}
-		return waiter
+		if memoWaiter != "" && inMemoFuncs == parkedOnMemoLock {
+			return "RWMutex(common.cacheLock)\n" + memoWaiter
+		}
+		if waiter != "" && !perRevision {
+			return "WaitGroup.Wait\n" + waiter
+		}
+		return ""
 	}
 	for i := 0; i < 600; i++ { // (outer bound: 20 minutes, then the test's own deadline takes over)
 		select {
